@@ -6,6 +6,7 @@ pub fn dispatch(op: &str, case: &Value) -> Value {
     match op {
         "from_until" => op_from_until(case),
         "version_header" => op_version_header(case),
+        "versioned_server" => op_versioned_server(case),
         "path" => op_path(case),
         "body" => op_body(case),
         "http_error" => op_http_error(case),
@@ -62,6 +63,68 @@ fn op_version_header(case: &Value) -> Value {
         Ok(Ok(v)) => json!({"ok": v.to_string()}),
         Ok(Err(e)) => json!({"err": e.status_code.as_u16()}),
     }
+}
+
+#[dropshot::endpoint { method = GET, path = "/placeholder-which" }]
+async fn which_handler(
+    rqctx: dropshot::RequestContext<()>,
+) -> Result<dropshot::HttpResponseOk<String>, dropshot::HttpError> {
+    Ok(dropshot::HttpResponseOk(rqctx.endpoint.operation_id.clone()))
+}
+
+/// A real server with the header version policy: which handler (by operation id) serves each request.
+/// {"op":"versioned_server","endpoints":[{id,method,path,versions}],"policy":"dynamic"|"unversioned","max":"2.0.0",
+///  "requests":[{"method","path","header":null|"non-ascii"|text}]} -> {"registered":bool,"responses":[{"status","handler"}]}
+fn op_versioned_server(case: &Value) -> Value {
+    let mut api = dropshot::ApiDescription::<()>::new();
+    for spec in case["endpoints"].as_array().unwrap() {
+        let mut e: dropshot::ApiEndpoint<()> = dropshot::ApiEndpoint::from(which_handler);
+        e.operation_id = spec["id"].as_str().unwrap_or("op").to_string();
+        e.method = http::Method::from_bytes(spec["method"].as_str().unwrap_or("GET").as_bytes()).expect("method");
+        e.path = spec["path"].as_str().unwrap_or("/").to_string();
+        e.versions = match crate::parse_versions(&spec["versions"]) {
+            Ok(v) => v,
+            Err(e) => return json!({"registered": false, "why": e}),
+        };
+        if let Err(e) = api.register(e) {
+            return json!({"registered": false, "why": e.to_string()});
+        }
+    }
+    let policy = match case["policy"].as_str().unwrap_or("dynamic") {
+        "unversioned" => None,
+        _ => {
+            let max = semver::Version::parse(case["max"].as_str().unwrap()).unwrap();
+            let name = http::HeaderName::from_static("api-version");
+            Some(dropshot::VersionPolicy::Dynamic(Box::new(dropshot::ClientSpecifiesVersionInHeader::new(name, max))))
+        }
+    };
+    let mut reqs = vec![];
+    for r in case["requests"].as_array().unwrap() {
+        let mut rq = format!("{} {} HTTP/1.1\r\nhost: x\r\n", r["method"].as_str().unwrap_or("GET"), r["path"].as_str().unwrap_or("/")).into_bytes();
+        match r["header"].as_str() {
+            None => {}
+            Some("non-ascii") => {
+                rq.extend_from_slice(b"api-version: ");
+                rq.extend_from_slice(&[0xf0, 0x28, 0x8c, 0xbc]);
+                rq.extend_from_slice(b"\r\n");
+            }
+            Some(s) => rq.extend_from_slice(format!("api-version: {}\r\n", s).as_bytes()),
+        }
+        rq.extend_from_slice(b"\r\n");
+        reqs.push(vec![rq]);
+    }
+    let resps = crate::live::serve_raw_with(api, 1024, policy, reqs);
+    let out: Vec<Value> = resps
+        .into_iter()
+        .map(|r| match r {
+            None => json!({"status": null}),
+            Some(r) => {
+                let handler = if r.status == 200 { serde_json::from_slice::<String>(&r.body).ok() } else { None };
+                json!({"status": r.status, "handler": handler})
+            }
+        })
+        .collect();
+    json!({"registered": true, "responses": out})
 }
 
 // ---------------------------------------------------------------------------------- C03
@@ -821,6 +884,13 @@ async fn t_path(_r: RequestContext<()>, p: Path<TPath>) -> Result<HttpResponseOk
     ENTERED.fetch_add(1, Ordering::SeqCst);
     Ok(HttpResponseOk(p.into_inner()))
 }
+#[derive(Deserialize, Serialize, JsonSchema, Debug, Clone, PartialEq)]
+struct TPath2 { d: u16, e: u64, f: i16, g: i32, h: i64 }
+#[endpoint { method = GET, path = "/p2/{d}/{e}/{f}/{g}/{h}" }]
+async fn t_path2(_r: RequestContext<()>, p: Path<TPath2>) -> Result<HttpResponseOk<TPath2>, HttpError> {
+    ENTERED.fetch_add(1, Ordering::SeqCst);
+    Ok(HttpResponseOk(p.into_inner()))
+}
 #[endpoint { method = GET, path = "/q" }]
 async fn t_query(_r: RequestContext<()>, q: Query<TQuery>) -> Result<HttpResponseOk<TQuery>, HttpError> {
     ENTERED.fetch_add(1, Ordering::SeqCst);
@@ -845,6 +915,7 @@ async fn t_text(_r: RequestContext<()>, b: UntypedBody) -> Result<HttpResponseOk
 fn typed_api() -> ApiDescription<()> {
     let mut api = ApiDescription::new();
     api.register(t_path).unwrap();
+    api.register(t_path2).unwrap();
     api.register(t_query).unwrap();
     api.register(t_json).unwrap();
     api.register(t_form).unwrap();
